@@ -519,8 +519,20 @@ class Models(object):
             return mk("collect_set", it)
         if path.endswith("HashMap"):
             vs = prog.fieldless_enum_variants(t["args"][0])
+            gen_enum = None
+            if vs is None:
+                gen_enum = self._generic_enum(prog, t["args"][0], genv)
+                if gen_enum is not None:
+                    vs = gen_enum[1]
             if vs is not None:
-                m = self.empty_emap(prog, t["args"][0])
+                if gen_enum is not None:
+                    # HashMap<K, _> inside a generic helper instantiated with K = a fieldless enum of the crate
+                    margs = []
+                    for _ in vs:
+                        margs.extend([tm.FALSE, UNDEF])
+                    m = mk("emap", _norm_adt(gen_enum[0]), *margs)
+                else:
+                    m = self.empty_emap(prog, t["args"][0])
                 if it.op == "eiter":
                     for g, x in self.eiter_items(it):
                         k, v = tm.tproj(x, 0), tm.tproj(x, 1)
@@ -557,6 +569,22 @@ class Models(object):
             return mk("concat", it)
         self.order_event(ev, "collect-list", it)
         return mk("collect", it, t["s"])
+
+    def _generic_enum(self, prog, tid, genv):
+        """(adt path, [(idx, name)]) when the type is a type parameter bound (in this instantiation) to a fieldless
+        enum of the crate, else None."""
+        t = prog.types[prog.peel_refs(tid)]
+        if t["k"] != "param" or not genv:
+            return None
+        key = genv.get(t["n"])
+        if not isinstance(key, str):
+            return None
+        a = prog.adts.get(key)
+        if a is None and prog.other is not None:
+            a = prog.other.adts.get(key)
+        if a is None or a["kind"] != "enum" or any(v["fields"] for v in a["variants"]):
+            return None
+        return a["path"], [(v["idx"], v["name"]) for v in a["variants"]]
 
     def collect_vec(self, it):
         if it.op == "eiter":
